@@ -735,3 +735,41 @@ pub fn fu() -> OptionParser<(u32, u32)> {
     let b = short('b').long("beta").argument::<u32>("B");
     construct!(a, b).to_options().fallback_to_usage()
 }
+
+/// group help given as a styled document: a non-ASCII fragment that ends its line, then an emphasised one
+pub fn gd() -> OptionParser<(bool, Option<u32>)> {
+    let a = short('a').long("alpha").switch();
+    let b = short('b').long("beta").argument::<u32>("B").optional();
+    let mut d = bpaf::doc::Doc::default();
+    d.text("\u{e9}\n");
+    d.emphasis("x");
+    construct!(a, b).group_help(d).to_options()
+}
+
+/// an env-backed switch under a guard, after an argument that consumes a word (guard messages quote State::current)
+pub fn eg() -> OptionParser<(u32, bool)> {
+    let n = short('n').long("num").argument::<u32>("N");
+    let f = short('f').long("force").env("VERIF_G").switch().guard(|f| !*f, "forcing is not supported");
+    construct!(n, f).to_options()
+}
+
+fn alt3_group_first() -> impl Parser<Alt> {
+    let a = short('a').long("alpha").req_flag(Alt::A);
+    let b = short('b').long("beta").argument::<u32>("B").map(Alt::B);
+    let c = alt_c();
+    construct!([c, a, b])
+}
+
+/// bare choice with the two-argument group declared FIRST (a partially typed group fails after consuming)
+pub fn a6() -> OptionParser<(Alt, bool)> {
+    let alt = alt3_group_first();
+    let s = short('s').long("sw").switch();
+    construct!(alt, s).to_options()
+}
+
+/// the same choice, repeated
+pub fn a7() -> OptionParser<(Vec<Alt>, bool)> {
+    let alt = alt3_group_first().many();
+    let s = short('s').long("sw").switch();
+    construct!(alt, s).to_options()
+}
